@@ -337,6 +337,9 @@ def check(program: Program, run: Run) -> None:
         if not fd.info and fd.key.startswith("C12/operand-alias:Join"):
             run.finding("C07/stray-alias-token:" + fd.key.split(":", 1)[1], "an alias supplied once (for the select list) is emitted again inside the join condition: " + fd.what,
                         where=fd.where, rule="inherited from C12/R3")
+        if not fd.info and fd.key.startswith("C12/alias-reference-policy:"):
+            run.finding("C07/alias-reference-unresolvable:" + fd.key.split(":", 1)[1], "a select alias is written as a reference where the dialect cannot resolve it: " + fd.what,
+                        where=fd.where, rule="inherited from C12/R5")
     if n12 < 2:
         raise AnalysisError(f"instance count below floor: join condition obligations {n12}")
 
